@@ -65,6 +65,19 @@ Section WalkerP.
     destruct (children k (T kd ss fs ks)); reflexivity.
   Qed.
 
+  Lemma moves_kr (k : string) kd ss fs ks :
+    moves_of (one k (kr_of ks)) = match child k (T kd ss fs ks) with Some x => changes_directory x | None => false end.
+  Proof.
+    unfold one, child, moves_of. rewrite (lbl_children k kd ss fs ks).
+    destruct (children k (T kd ss fs ks)); reflexivity.
+  Qed.
+
+  Lemma self_kr kd ss fs ks : T kd ss fs (map (fun p : str * tree * res => (fst (fst p), snd (fst p))) (kr_of ks)) = T kd ss fs ks.
+  Proof.
+    f_equal. unfold kr_of. rewrite map_map. cbn [fst snd]. induction ks as [|[l x] ks IH]; [reflexivity|].
+    cbn [map fst snd]. f_equal. exact IH.
+  Qed.
+
   Ltac kinds :=
     repeat match goal with
            | |- context [str_eqb (s2l ?a) (s2l ?b)] =>
@@ -97,24 +110,28 @@ Section WalkerP.
   Proof. intro t. subst t. open_node. rewrite (need_kr "body" c $"brace-group" ss fs), (redirs_kr c $"brace-group" ss fs). reflexivity. Qed.
 
   Lemma walk_if c ss fs ks : let t := T $"if" ss fs ks in
-    walk c t = combine (need c (child "condition" t) :: need c (child "then_body" t) ::
-                        optional c (child "else_body" t) ++ redirs_of c t).
+    let cb := body_ctx c (match child "condition" t with Some x => changes_directory x | None => false end) in
+    walk c t = combine (need c (child "condition" t) :: need cb (child "then_body" t) ::
+                        optional cb (child "else_body" t) ++ redirs_of c t).
   Proof.
-    intro t. subst t. open_node.
-    rewrite (need_kr "condition" c $"if" ss fs), (need_kr "then_body" c $"if" ss fs),
-            (opt_kr "else_body" c $"if" ss fs), (redirs_kr c $"if" ss fs). reflexivity.
+    intros t cb. subst t cb. open_node.
+    rewrite (moves_kr "condition" $"if" ss fs).
+    rewrite (need_kr "condition" c $"if" ss fs), (need_kr "then_body" _ $"if" ss fs),
+            (opt_kr "else_body" _ $"if" ss fs), (redirs_kr c $"if" ss fs). reflexivity.
   Qed.
   Lemma walk_while c ss fs ks : let t := T $"while" ss fs ks in
-    walk c t = combine (need c (child "condition" t) :: need c (child "body" t) :: redirs_of c t).
+    let cb := body_ctx c (changes_directory t) in
+    walk c t = combine (need cb (child "condition" t) :: need cb (child "body" t) :: redirs_of c t).
   Proof.
-    intro t. subst t. open_node.
-    rewrite (need_kr "condition" c $"while" ss fs), (need_kr "body" c $"while" ss fs), (redirs_kr c $"while" ss fs). reflexivity.
+    intros t cb. subst t cb. open_node. rewrite (self_kr $"while" ss fs ks).
+    rewrite (need_kr "condition" _ $"while" ss fs), (need_kr "body" _ $"while" ss fs), (redirs_kr c $"while" ss fs). reflexivity.
   Qed.
   Lemma walk_until c ss fs ks : let t := T $"until" ss fs ks in
-    walk c t = combine (need c (child "condition" t) :: need c (child "body" t) :: redirs_of c t).
+    let cb := body_ctx c (changes_directory t) in
+    walk c t = combine (need cb (child "condition" t) :: need cb (child "body" t) :: redirs_of c t).
   Proof.
-    intro t. subst t. open_node.
-    rewrite (need_kr "condition" c $"until" ss fs), (need_kr "body" c $"until" ss fs), (redirs_kr c $"until" ss fs). reflexivity.
+    intros t cb. subst t cb. open_node. rewrite (self_kr $"until" ss fs ks).
+    rewrite (need_kr "condition" _ $"until" ss fs), (need_kr "body" _ $"until" ss fs), (redirs_kr c $"until" ss fs). reflexivity.
   Qed.
 
   (* ---- pipeline: all stages ---- *)
@@ -138,12 +155,7 @@ Section WalkerP.
   Qed.
 
   (* the context each element of a sequence is analysed in *)
-  Definition next_ctx (c : ctx) (t : tree) : ctx :=
-    if snd c then c else
-      match extract_cd_target t with
-      | Some tgt => if nonempty tgt then (cdres (fst c) tgt, snd c) else c
-      | None => c
-      end.
+  Notation next_ctx := (next_ctx cdres).
   Fixpoint seq_ctxs (c : ctx) (l : list tree) : list (ctx * tree) :=
     match l with [] => [] | t :: r => (c, t) :: seq_ctxs (next_ctx c t) r end.
 
@@ -154,15 +166,15 @@ Section WalkerP.
     cbn [map Walker.sequence seq_ctxs fst snd]. f_equal. apply IH.
   Qed.
 
-  Definition no_cd (t : tree) : Prop := extract_cd_target t = None.
+  Definition no_cd (t : tree) : Prop := extract_cd_target t = None /\ changes_directory t = false.
 
   Lemma seq_ctxs_no_cd c l : (snd c = true \/ Forall no_cd l) -> seq_ctxs c l = map (fun t => (c, t)) l.
   Proof.
     induction l as [|t l IH]; intro H; [reflexivity|].
     cbn [seq_ctxs map]. f_equal.
     assert (E : next_ctx c t = c).
-    { unfold next_ctx. destruct H as [H|H]; [rewrite H; reflexivity|].
-      inversion H as [|? ? Ht Hl]; subst. unfold no_cd in Ht. rewrite Ht. destruct (snd c); reflexivity. }
+    { unfold Walker.next_ctx. destruct H as [H|H]; [rewrite H; reflexivity|].
+      inversion H as [|? ? Ht Hl]; subst. destruct Ht as [Ht1 Ht2]. rewrite Ht1, Ht2. destruct (snd c); reflexivity. }
     rewrite E. apply IH. destruct H as [H|H]; [left; exact H|right; inversion H; assumption].
   Qed.
 
@@ -186,16 +198,18 @@ Section WalkerP.
   Qed.
 
   Lemma walk_for c ss fs ks : let t := T $"for" ss fs ks in
-    walk c t = combine (need c (child "body" t) :: wparts c (children "words" t) ++ redirs_of c t).
+    let cb := body_ctx c (match child "body" t with Some x => changes_directory x | None => false end) in
+    walk c t = combine (need cb (child "body" t) :: wparts c (children "words" t) ++ redirs_of c t).
   Proof.
-    intro t. subst t. open_node.
-    rewrite (need_kr "body" c $"for" ss fs), (wparts_kr "words" c $"for" ss fs), (redirs_kr c $"for" ss fs). reflexivity.
+    intros t cb. subst t cb. open_node. rewrite (moves_kr "body" $"for" ss fs).
+    rewrite (need_kr "body" _ $"for" ss fs), (wparts_kr "words" c $"for" ss fs), (redirs_kr c $"for" ss fs). reflexivity.
   Qed.
   Lemma walk_select c ss fs ks : let t := T $"select" ss fs ks in
-    walk c t = combine (need c (child "body" t) :: wparts c (children "words" t) ++ redirs_of c t).
+    let cb := body_ctx c (match child "body" t with Some x => changes_directory x | None => false end) in
+    walk c t = combine (need cb (child "body" t) :: wparts c (children "words" t) ++ redirs_of c t).
   Proof.
-    intro t. subst t. open_node.
-    rewrite (need_kr "body" c $"select" ss fs), (wparts_kr "words" c $"select" ss fs), (redirs_kr c $"select" ss fs). reflexivity.
+    intros t cb. subst t cb. open_node. rewrite (moves_kr "body" $"select" ss fs).
+    rewrite (need_kr "body" _ $"select" ss fs), (wparts_kr "words" c $"select" ss fs), (redirs_kr c $"select" ss fs). reflexivity.
   Qed.
 
   Definition pats (c : ctx) (l : list tree) : list verdict := flat_map (fun p => r_pat (ev p) c) l.
@@ -218,12 +232,13 @@ Section WalkerP.
 
 
   Lemma walk_forarith c ss fs ks : let t := T $"for-arith" ss fs ks in
-    walk c t = combine (need c (child "body" t) ::
+    let cb := body_ctx c (match child "body" t with Some x => changes_directory x | None => false end) in
+    walk c t = combine (need cb (child "body" t) ::
                         rawscan c (attr_d "init" t) ++ rawscan c (attr_d "cond" t) ++ rawscan c (attr_d "incr" t) ++
                         redirs_of c t).
   Proof.
-    intro t. subst t. open_node.
-    rewrite (need_kr "body" c $"for-arith" ss fs), (redirs_kr c $"for-arith" ss fs). reflexivity.
+    intros t cb. subst t cb. open_node. rewrite (moves_kr "body" $"for-arith" ss fs).
+    rewrite (need_kr "body" _ $"for-arith" ss fs), (redirs_kr c $"for-arith" ss fs). reflexivity.
   Qed.
 
   Lemma flat_map_pairs {B} (f : res -> list B) (l : list tree) :
@@ -238,7 +253,8 @@ Section WalkerP.
     rewrite flat_map_concat_map, map_map, <- flat_map_concat_map. reflexivity.
   Qed.
   Lemma walk_arithcmd c ss fs ks : let t := T $"arith-cmd" ss fs ks in
-    walk c t = combine (flat_map (fun e => r_exp (ev e) c) (children "expression" t) ++ redirs_of c t).
+    walk c t = combine (flat_map (fun e => r_exp (ev e) c) (children "expression" t) ++
+                        (if unclosed_arith (attr_d "raw_content" t) then [Ask] else []) ++ redirs_of c t).
   Proof.
     intro t. subst t. open_node.
     rewrite (redirs_kr c $"arith-cmd" ss fs), (lbl_children "expression" $"arith-cmd" ss fs ks).
@@ -249,6 +265,7 @@ Section WalkerP.
   (* ---- the other walker functions, as functions of the node ---- *)
   Lemma wp_unfold c b k ss fs ks : let t := T k ss fs ks in
     r_wp (ev t) b c =
+    (if nonempty (children "parts" t) && unclosed_arith (attr_d "value" t) then [Ask] else []) ++
     flat_map (fun p => r_exp (ev p) c) (children "parts" t) ++
     (if b && negb (nonempty (children "parts" t)) then rawscan c (attr_d "value" t) else []).
   Proof.
@@ -294,12 +311,11 @@ Section WalkerP.
     else
       match child "target" t with Some w => r_wp (ev w) false c | None => [] end ++
       (if snd c then [] else
-         match redirect_class (attr_d "op" t)
+         match redirect_check (attr_d "op" t)
                  (match child "target" t with Some w => attr_d "value" w | None => [] end)
                  (match child "target" t with Some w => word_value w | None => [] end) with
-         | RSkip => []
-         | RCheck => [redirect_rule mredir (fst c)
-                        (match child "target" t with Some w => word_value w | None => [] end)]
+         | None => []
+         | Some file => [redirect_rule mredir (fst c) file]
          end).
   Proof.
     intro t. subst t. rewrite ev_unfold. unfold build. cbn [r_redir].
